@@ -212,7 +212,7 @@ class _LeasePub(Publisher):
         self.sub = subscriber
 
 
-TTLS_US = (0, 1000, 500000, 1500000, 2500, 999600, 86400001000, 2147483647000)
+TTLS_US = (0, 1000, 500000, 1500000, 2500, 999600, 86400001000, 2147483647000, 1001000, 4007000)
 
 
 def c_responder(count: int, ttl_i: int, n: int, client_asks: bool) -> str:
@@ -222,7 +222,7 @@ def c_responder(count: int, ttl_i: int, n: int, client_asks: bool) -> str:
     sub-second parts; the ms arithmetic over the full range is the E2 obligation shared with C16), on stream 0.
 
     pre: 0 <= count <= 0x7FFFFFFF
-    pre: 0 <= ttl_i <= 7
+    pre: 0 <= ttl_i <= 9
     pre: 0 <= n <= 2
     post: _ in ALLOWED
     """
